@@ -196,7 +196,36 @@ fn serde_dispatch(case: &Value, data: &[u8], bf: Option<(&[u8], usize)>) -> Valu
     let data = data.to_vec();
     match case["type"].as_str().unwrap_or("") {
         "metablock" => channels::<Metablock>(&data, bf),
-        "wrapper" => channels::<MetadataWrapper>(&data, bf),
+        "wrapper" => {
+            let mut o = channels::<MetadataWrapper>(&data, bf);
+            // the crate's own byte-slice entry points for "a layout or a link"
+            let reference = serde_json::from_slice::<MetadataWrapper>(&data).ok();
+            let mut same = true;
+            for (name, r) in [
+                (
+                    "try_from_bytes",
+                    guarded(|| MetadataWrapper::try_from_bytes(&data).map_err(|e| e.to_string())),
+                ),
+                (
+                    "raw_builder",
+                    guarded(|| {
+                        in_toto::models::MetablockBuilder::from_raw_metadata(&data)
+                            .map(|b| b.build().metadata)
+                            .map_err(|e| e.to_string())
+                    }),
+                ),
+            ] {
+                let (v, out) = res(r);
+                if let (Some(v), Some(rf)) = (&v, &reference) {
+                    same &= v == rf;
+                }
+                o["ch"][name] = out;
+            }
+            if !same {
+                o["all_eq"] = json!(false);
+            }
+            o
+        }
         "layout" => channels::<LayoutMetadata>(&data, bf),
         "link" => channels::<LinkMetadata>(&data, bf),
         "pubkey" => channels::<PublicKey>(&data, bf),
